@@ -154,7 +154,9 @@ func subEncodeGrid() mon.Sub {
 		Do: func(c *mon.C) {
 			i := c.I
 			h := ref.Header{Fin: i&1 != 0, Rsv: byte(i >> 1 & 7), Op: byte(i >> 4 & 15), Masked: i>>8&1 != 0}
-			ks := [][4]byte{{}}
+			// (an UNMASKED header may still carry key bytes - a received header whose flag was cleared
+			// and that is written again -: they are not part of its encoding)
+			ks := [][4]byte{{}, {1, 2, 3, 4}}
 			if h.Masked {
 				var rk [4]byte
 				c.Rng.Read(rk[:])
